@@ -276,7 +276,7 @@ pub fn child(seed: u64, pl: usize, lens: &str, honest: usize, droppers: usize, s
     // Wait for the output files (or until time is up). When every piece has been stored and the scenario says so,
     // one honest peer leaves (the others stay and keep serving).
     let t0 = std::time::Instant::now();
-    let limit = std::time::Duration::from_secs(30);
+    let limit = std::time::Duration::from_secs(20);
     let piece_names: Vec<String> = content.chunks(pl).map(|c| hash_to_string(&sha1(c)) + ".piece").collect();
     let out_path = |k: usize| if lens.len() > 1 { format!("out/f{}", k) } else { format!("f{}", k) };
     let file_state = |k: usize, pos: usize, l: usize| match std::fs::read(out_path(k)) {
@@ -373,24 +373,44 @@ pub fn run(args: &[&str]) -> String {
 
 pub fn gen(r: &mut Rng, n: usize) -> Vec<String> {
     let mut out = vec![];
-    for _ in 0..n {
-        let pl = *r.pick(&[5usize, 16, 100, 16384, 20000, 40000]);
+    for k in 0..n {
+        // scenario families that matter for the bookkeeping, then free mixtures
+        let family = k % 5;
+        let pl = match family {
+            1 | 2 => *r.pick(&[16usize, 100, 16384, 20000]),
+            _ => *r.pick(&[5usize, 16, 100, 16384, 20000, 40000]),
+        };
         let nf = 1 + r.below(4) as usize;
-        let max_total = if pl < 1000 { 12 * pl } else { 6 * pl };
+        let max_total = match family {
+            1 => 3 * pl,      // no more pieces than peers: everything is Reserved at once
+            2 => pl,          // a single piece wanted from every peer (end game duplicates)
+            3 => 12 * pl,     // more pieces than the end-game limit
+            _ => {
+                if pl < 1000 { 12 * pl } else { 6 * pl }
+            }
+        };
         let mut lens: Vec<usize> = (0..nf)
             .map(|_| match r.below(5) {
                 0 => 0,
-                1 => pl,
-                2 => r.below(pl as u64) as usize,
+                1 => pl.min(max_total / nf),
+                2 => r.below(pl as u64) as usize % (max_total / nf + 1),
                 _ => r.below((max_total / nf) as u64 + 1) as usize,
             })
             .collect();
+        if family == 3 {
+            // at least 11 pieces
+            lens[0] = lens[0].max(10 * pl + 1);
+        }
         if lens.iter().sum::<usize>() == 0 {
-            lens[0] = pl + 1;
+            lens[0] = if family == 2 { pl } else { pl + 1 };
         }
         let lens_s = lens.iter().map(|x| x.to_string()).collect::<Vec<_>>().join(",");
-        let honest = 1 + r.below(3);
-        let droppers = r.below(3);
+        let (honest, droppers) = match family {
+            1 => (3, 1 + r.below(2)),
+            2 => (3, r.below(2)),
+            3 => (1 + r.below(2), r.below(2)),
+            _ => (1 + r.below(3), r.below(3)),
+        };
         let stay = r.chance(1, 3);
         out.push(format!("e2e {} {} {} {} {} {}", r.below(1 << 30), pl, lens_s, honest, droppers, if stay { 1 } else { 0 }));
     }
